@@ -28,7 +28,7 @@ PURE_ELEMENTS = list("+-*N›‹d¬=<>:D$_^!Ww\"JLhtfṘ∑n")
 # the second table of the core (Values.elem_more): constants, whole-stack rotations, over, bifurcate, Python's and/or,
 # comparisons, numeric monads, extremes, head/tail extraction, ranges, product, mirror, palindromise, prepend, any/all,
 # not-one, all-equal, zip, uniquify, stringify
-MORE_ELEMENTS = list("₀₁₄₆₇₈¤ð¶u„‟ȮḂ∧∨⟑≤≥≠⌐∷₂ȧ²%Gg∴∵ḣṫḢṪɾʀɽʁΠm∞paAċ≈zZUS")
+MORE_ELEMENTS = list("₀₁₄₆₇₈¤ð¶u„‟ȮḂ∧∨⟑≤≥≠⌐∷₂ȧ²%Gg∴∵ḣṫḢṪɾʀɽʁΠm∞paAċ≈zZUSżẏYysẋj")
 PURE_ELEMENTS = PURE_ELEMENTS + MORE_ELEMENTS
 EFFECT_ELEMENTS = list(",…£¥?")
 CALL_ELEMENTS = list("MF†")
@@ -684,7 +684,7 @@ UNQUOTED_CLS = "C01:generated-lazy-list-prints-strings-unquoted"
 MATRIX_VALUES = ["0", "1", "7", "12", "5N", "120", "1001", "``", "`a`", "`Ab c`", "`12`", "`aXa`", "⟨⟩", "⟨1|2|3⟩", "⟨3|1|2|1⟩",
                  "⟨`a`|`b`|`a`⟩", "⟨⟨1|2⟩|⟨3⟩|4⟩", "⟨0|`x`|⟨⟩⟩", "⟨7⟩", "⟨2|2⟩", "⟨1|0⟩", "⟨``|0⟩"]
 MATRIX_DYAD_VALUES = ["0", "3", "12", "5N", "``", "`a`", "`Ab`", "`3`", "⟨⟩", "⟨1|2|3⟩", "⟨`a`|2⟩", "⟨⟨1|2⟩|3⟩", "⟨4⟩"]
-DYADS = set("+-*=<>$\"J∧∨⟑≤≥≠%∴∵pZ")
+DYADS = set("+-*=<>$\"J∧∨⟑≤≥≠%∴∵pZYẋj")
 NILADS = set("^!Wn?₀₁₄₆₇₈¤ð¶u„‟Ȯ¥")
 
 
@@ -898,7 +898,7 @@ def run(env):
     env.sample({"theorem": "C01_compile_correct: core_ok_list false p = true -> exec cf fuel false p s = eval cf fuel p s"})
     env.assume("CPython executes the emitted lines as Model/Machine.v says (the principal modelled-not-verified link; validated on every "
                "run by correspondence (1), and the emitted text itself by (3) against Model/Transpile.v)")
-    env.assume("the semantics of the 87 core elements and of the 8 modifier bodies (Model/Values.v) is shared by both evaluators: its fidelity is "
+    env.assume("the semantics of the 94 core elements and of the 8 modifier bodies (Model/Values.v) is shared by both evaluators: its fidelity is "
                "checked by correspondence only; their template texts and arities are a proof obligation over the regenerated table (C01_templates)")
     env.assume("lazy evaluation: maps / filters / vectorised calls are evaluated eagerly in the model; where that could be observed (a lazily "
                "applied body that prints, reads or writes register / variables / input, or function values among the arguments) and where a "
